@@ -80,9 +80,10 @@ type Line struct {
 }
 
 type inst struct {
-	a    *world.Auth
-	site Site
-	pool *pools
+	a       *world.Auth
+	site    Site
+	pool    *pools
+	outside bool // served under a host outside the proxy root domains
 }
 
 // World is one worker's set of real authenticators (provider x root-domain list) on one fake IdP.
@@ -111,6 +112,13 @@ func NewWorld() (*World, error) {
 			return nil, err
 		}
 		w.inst[pc[0]+"/"+pc[1]] = &inst{a: a, site: st, pool: p}
+		// the same configuration served under a host that is NOT inside the proxy root domains (sso-auth need not
+		// live under them): its own host, and hosts that merely look like it, are out of domain like any other
+		b, err := world.NewAuth(world.AuthOpts{Provider: pc[0], RootDomains: domainCfg[pc[1]], Host: outsideHost}, w.IdP)
+		if err != nil {
+			return nil, fmt.Errorf("auth fixture %v (outside host): %v", pc, err)
+		}
+		w.inst[pc[0]+"/"+pc[1]+"@out"] = &inst{a: b, site: st, pool: p, outside: true}
 	}
 	return w, nil
 }
@@ -243,6 +251,9 @@ var wrongIDs = []string{"proxy-client-idx", "proxy-client-i", "PROXY-CLIENT-ID",
 // RunCell concretises one cell, sends it to the real authenticator and projects the answer.
 func (w *World) RunCell(n int, cell Cell, r *rand.Rand) Line {
 	in := w.inst[cell.Prov+"/"+cell.Cfg]
+	if r.Intn(3) == 0 {
+		in = w.inst[cell.Prov+"/"+cell.Cfg+"@out"]
+	}
 	if in == nil {
 		return Line{Case: n, C: cell, Out: Out{Idp: []string{}}, Panic: "HARNESS: no fixture for " + cell.Prov + "/" + cell.Cfg}
 	}
@@ -362,6 +373,9 @@ func (w *World) RunCell(n int, cell Cell, r *rand.Rand) Line {
 		switch cell.Outer {
 		case "good":
 			outer = []string{"http://" + a.Opts.Host + "/" + a.Slug + "/sign_in", "https://" + a.Opts.Host + "/" + a.Slug + "/sign_in", "https://other." + d + "/x/sign_in"}[r.Intn(3)] + "?" + nq
+			if in.outside {
+				outer = "https://other." + d + "/x/sign_in?" + nq // this authenticator's own host is not in domain
+			}
 		case "out":
 			outer = []string{"https://evil.test/" + a.Slug + "/sign_in", "https://sso-auth." + d + ".evil.net/sign_in", "https://sso-auth." + d + "@evil.test/sign_in", "https://evil-" + d + "/sign_in"}[r.Intn(4)] + "?" + nq
 		case "nohost":
